@@ -188,6 +188,11 @@ func cmdCheck(args []string) int {
 		fr := w.VerifyFunc(j.key, j.c)
 		results = append(results, fr)
 	}
+	for _, lm := range w.cs.Lemmas {
+		if hasProp(lm.Props, *prop) {
+			results = append(results, w.VerifyLemma(lm))
+		}
+	}
 	genS := time.Since(t0).Seconds() - loadS
 	var wg sync.WaitGroup
 	sem := make(chan struct{}, 14)
@@ -201,8 +206,10 @@ func cmdCheck(args []string) int {
 		}
 		e := fr.enc
 		// vacuity covers
-		covers := e.coverObligations()
-		fr.Obls = append(fr.Obls, covers...)
+		if e.root != nil {
+			covers := e.coverObligations()
+			fr.Obls = append(fr.Obls, covers...)
+		}
 		dir := filepath.Join(outDir, mangle(strings.TrimPrefix(fr.Key, modulePrefix)))
 		os.MkdirAll(dir, 0o755)
 		for _, o := range fr.Obls {
